@@ -118,7 +118,12 @@ def check_hashes(root):
     if len(set(map(id, nodes))) != len(nodes):
         return errs, False  # duplicated nodes: reported by check_links; parallel walk below would be meaningless
     c = clone(root, Expr)
-    hash(c)
+    try:
+        hash(c)
+    except TypeError:
+        # a tree in which an edit has put a list inside a list argument is unhashable for sqlglot itself (hash(tree)
+        # raises for the user as well): nothing to compare cached hashes with
+        return errs, False
     cnodes = walk(c, Expr)
     if len(cnodes) != len(nodes):
         return [("harness", "clone walk mismatch", "")], False
